@@ -442,7 +442,7 @@ impl Monitor for C18 {
         Outcome::Held
     }
     fn workload(&self, w: &Work, emit: &mut dyn FnMut(Case)) -> J {
-        let n = w.share(640, 40_000);
+        let n = w.share(4_000, 80_000);
         let mut rng = w.rng("C18", 1);
         for k in 0..n {
             let mut c = Case::raw("", "", "");
